@@ -277,6 +277,14 @@ func (g *Gen) instr(b *ssa.BasicBlock, in ssa.Instruction) {
 		has, _ := g.mapHeaps(mt)
 		g.guard(eq("(select "+g.heap(has)+" "+r+")", "((as const (Array "+string(sortOf(mt.Key()))+" Bool)) false)"))
 		g.guard(eq("(maplen "+r+")", "0"))
+		// ghost state of a fresh map starts at its zero value
+		for name := range g.S.Ghost {
+			if _, known := g.heapSort["G."+name]; !known {
+				continue
+			}
+			h, gs, _ := g.ghostHeap(name)
+			g.guard(eq("(select "+g.heap(h)+" "+r+")", zeroOf(gs)))
+		}
 	case *ssa.MakeChan:
 		g.outOfSub = append(g.outOfSub, "MakeChan")
 	case *ssa.MakeInterface:
